@@ -771,6 +771,10 @@ class BaseProperty(base.BaseObject):
         lst = childlist
         old_index = lst.index(self)
 
+        # Negative positions count from the end of the list.
+        if new_index < 0:
+            new_index = max(len(lst) + new_index, 0)
+
         # 2 cases: insert after old_index / insert before
         if new_index > old_index:
             new_index += 1
